@@ -214,9 +214,11 @@ def builders_total(rep, M, rid):
         fnm = M.func(fqm)
         maxes = {s2.targets[0].id for s2 in ast.walk(fnm) if isinstance(s2, ast.Assign) and isinstance(s2.targets[0], ast.Name) and isinstance(s2.value, ast.Call)
                  and isinstance(s2.value.func, ast.Attribute) and s2.value.func.attr == "max" and not s2.value.args}
-        for c in [x for x in ast.walk(fnm) if isinstance(x, ast.Compare) and len(x.ops) == 1 and isinstance(x.comparators[0], ast.Name) and x.comparators[0].id in maxes]:
+        for c in [x for x in ast.walk(fnm) if isinstance(x, ast.Compare) and len(x.ops) == 1
+                  and ((isinstance(x.comparators[0], ast.Name) and x.comparators[0].id in maxes) or (isinstance(x.left, ast.Name) and x.left.id in maxes))]:
             nmax += 1
-            if isinstance(c.ops[0], (ast.Eq, ast.GtE)):
+            right = isinstance(c.comparators[0], ast.Name) and c.comparators[0].id in maxes
+            if isinstance(c.ops[0], ast.Eq) or (isinstance(c.ops[0], ast.GtE) and right) or (isinstance(c.ops[0], ast.LtE) and not right):
                 rep.ok(rid, f"{fqm.split('.')[-1]}: `{norm(c)}` keeps the candidates with the maximal metric")
             else:
                 rep.violation(rid, f"{fqm.split('.')[-1]}: `{norm(c)}`", "the filter on the summed metric drops the candidates with the *maximal* metric and keeps the others: "
@@ -495,6 +497,11 @@ def r04_4(rep, M, rid):
         if any(isinstance(c, ast.Call) and M.ext_name(fq, c.func) == "numpy.argmin" for e in sl["exprs"] for c in ast.walk(e)) and \
                 any(isinstance(c, ast.Call) and GEO + ".get_thickness" in M.callees_of_call(fq, c) for e in sl["exprs"] for c in ast.walk(e)):
             red = norm(other)
+    kept = [lp for lp in loop if any(isinstance(c, ast.Call) and isinstance(c.func, ast.Attribute) and c.func.attr == "append" and c.args
+                                     and isinstance(c.args[0], ast.Subscript) and norm(lp.target) in norm(c.args[0].slice) for c in ast.walk(lp))]
+    if red and not kept:
+        rep.violation(rid, "_find_proto_cell: vectors kept by the reduction", "the two cell vectors other than the reduced one are not carried over into the new basis: the "
+                      "2D cell is built from the normal alone", M.where(fq, cc[0]))
     if red:
         rep.ok(rid, f"_find_proto_cell: the reduced direction `{red}` is the thinnest one (argmin of get_thickness); the other two vectors are kept")
     else:
@@ -522,6 +529,14 @@ def r04_4(rep, M, rid):
             branch = t          # innermost If whose body holds the set_pbc([True, True, False]) of the reduction (walk order: outer first)
     if branch is None:
         raise AnalysisError("_find_proto_cell: branch of the 3D -> 2D reduction not found")
+    # the reduction is attempted for cells whose own dimensionality is 2 (stacked sheets), nothing else
+    bt = branch.test
+    if isinstance(bt, ast.Compare) and len(bt.ops) == 1 and isinstance(bt.comparators[0], ast.Constant) and bt.comparators[0].value == 2:
+        if isinstance(bt.ops[0], ast.Eq):
+            rep.ok(rid, f"_find_proto_cell: the 3D -> 2D reduction runs under `{norm(bt)}`")
+        else:
+            rep.violation(rid, f"_find_proto_cell: `{norm(bt)}`", "the reduction to a 2D cell runs for every dimensionality *except* 2: chains and finite fragments are turned "
+                          "into 2D cells while stacked sheets are rejected", M.where(fq, branch))
     upd = [s2 for s2 in ast.walk(branch) if isinstance(s2, ast.Assign) and norm(s2.targets[0]) == nvar]
     two = [s2 for s2 in upd if (isinstance(s2.value, ast.Constant) and s2.value.value == 2)
            or (isinstance(s2.value, ast.Call) and isinstance(s2.value.func, ast.Name) and s2.value.func.id == "len")]
